@@ -620,9 +620,17 @@ class BuiltinMixin:
         return [Ev(st, IntV(p))]
 
     def me_bytes_startswith(self, v, st, args, kwargs, fx):
-        if not isinstance(args[0], BytesV):
-            return [self.raise_(st, "TypeError", "startswith arg")]
-        return [Ev(st, BoolV(z3.PrefixOf(args[0].t, v.t)))]
+        a0 = args[0]
+        if isinstance(a0, TupleV):
+            # bytes.startswith(tuple of prefixes): true iff one of them is a prefix
+            if all(isinstance(x, BytesV) for x in a0.items):
+                return [Ev(st, BoolV(z3.Or([z3.PrefixOf(x.t, v.t) for x in a0.items]) if a0.items else z3.BoolVal(False)))]
+            raise OutOfReach("bytes.startswith with a tuple holding %s" % ",".join(x.kind for x in a0.items))
+        if not isinstance(a0, BytesV):
+            if isinstance(a0, (IntV, NoneV, StrV, BoolV)):
+                return [self.raise_(st, "TypeError", "startswith arg")]
+            raise OutOfReach("bytes.startswith with an argument of kind %s" % a0.kind)
+        return [Ev(st, BoolV(z3.PrefixOf(a0.t, v.t)))]
 
     def me_bytes_endswith(self, v, st, args, kwargs, fx):
         return [Ev(st, BoolV(z3.SuffixOf(args[0].t, v.t)))]
